@@ -1,19 +1,63 @@
-(* C10 — basic definitions and arithmetic lemmas.  canon = canonical form; toQ = the rational denoted. *)
+(* C10 — basic definitions and arithmetic lemmas.
+   canon = canonical form (den > 0, gcd = 1; hence zero = 0/1); toQ = the rational number denoted;
+   same  = equality of values stated on integers (n1/d1 = n2/d2  <->  n1*d2 = n2*d1). *)
 From Coq Require Import ZArith Znumtheory QArith Qreduction Lia Bool.
 From C10 Require Import Model.
 Local Open Scope Z_scope.
-Ltac Zify.zify_post_hook ::= Z.div_mod_to_equations.
 
+Definition posden (r : rat) : Prop := 0 < den r.
 Definition canon (r : rat) : Prop := 0 < den r /\ Z.gcd (num r) (den r) = 1.
 Definition toQ (r : rat) : Q := Qmake (num r) (Z.to_pos (den r)).
-(* value equality on the integer level: n1/d1 = n2/d2 *)
 Definition same (r1 r2 : rat) : Prop := num r1 * den r2 = num r2 * den r1.
+
+Lemma canon_posden : forall r, canon r -> posden r.
+Proof. intros r [H _]; exact H. Qed.
+
+Lemma canon_zero : forall r, canon r -> num r = 0 -> den r = 1.
+Proof. intros [n d] [Hd Hg] Hn; cbn [num den fst snd] in *. subst n. rewrite Z.gcd_0_l in Hg. lia. Qed.
 
 Lemma toQ_eq : forall r1 r2, 0 < den r1 -> 0 < den r2 -> (toQ r1 == toQ r2)%Q <-> same r1 r2.
 Proof.
   intros [n1 d1] [n2 d2]; unfold toQ, same, Qeq, num, den; cbn [fst snd Qnum Qden]; intros H1 H2.
   rewrite !Z2Pos.id by assumption. lia.
 Qed.
+
+(* ------------------------------------------------------------------ coprimality toolkit (on Z.gcd _ _ = 1) *)
+Lemma cop_sym : forall a b, Z.gcd a b = 1 -> Z.gcd b a = 1.
+Proof. intros; rewrite Z.gcd_comm; assumption. Qed.
+
+Lemma cop_mul_r : forall a b c, Z.gcd a b = 1 -> Z.gcd a c = 1 -> Z.gcd a (b * c) = 1.
+Proof. intros a b c H1 H2. apply Zgcd_1_rel_prime. apply rel_prime_mult; apply Zgcd_1_rel_prime; assumption. Qed.
+
+Lemma cop_mul_l : forall a b c, Z.gcd a c = 1 -> Z.gcd b c = 1 -> Z.gcd (a * b) c = 1.
+Proof. intros. apply cop_sym. apply cop_mul_r; apply cop_sym; assumption. Qed.
+
+Lemma cop_div_l : forall a a' b, Z.gcd a b = 1 -> (a' | a) -> Z.gcd a' b = 1.
+Proof. intros a a' b H D. apply Zgcd_1_rel_prime. apply rel_prime_div with a; [apply Zgcd_1_rel_prime; assumption | assumption]. Qed.
+
+Lemma cop_div_r : forall a b b', Z.gcd a b = 1 -> (b' | b) -> Z.gcd a b' = 1.
+Proof. intros. apply cop_sym. apply cop_div_l with b; [apply cop_sym; assumption | assumption]. Qed.
+
+Lemma cop_div : forall a a' b b', Z.gcd a b = 1 -> (a' | a) -> (b' | b) -> Z.gcd a' b' = 1.
+Proof. intros. apply cop_div_l with a; [apply cop_div_r with b|]; assumption. Qed.
+
+Lemma cop4 : forall A B C E, Z.gcd A B = 1 -> Z.gcd A C = 1 -> Z.gcd E B = 1 -> Z.gcd E C = 1 ->
+  Z.gcd (A * E) (C * B) = 1.
+Proof. intros. apply cop_mul_l; apply cop_mul_r; assumption. Qed.
+
+Lemma cop_opp_l : forall a b, Z.gcd a b = 1 -> Z.gcd (- a) b = 1.
+Proof. intros; rewrite Z.gcd_opp_l; assumption. Qed.
+
+Lemma cop_opp_r : forall a b, Z.gcd a b = 1 -> Z.gcd a (- b) = 1.
+Proof. intros; rewrite Z.gcd_opp_r; assumption. Qed.
+
+Lemma cop_add_mul : forall a k b, Z.gcd a b = 1 -> Z.gcd (a + k * b) b = 1.
+Proof. intros a k b H. rewrite Z.gcd_comm, Z.gcd_add_mult_diag_r, Z.gcd_comm. exact H. Qed.
+
+Lemma divide_mul_l' : forall a b, (a | a * b).
+Proof. intros; exists b; ring. Qed.
+Lemma divide_mul_r' : forall a b, (b | a * b).
+Proof. intros; exists a; ring. Qed.
 
 (* exact truncating division *)
 Lemma quot_exact : forall k b, b <> 0 -> Z.quot (k * b) b = k.
@@ -22,31 +66,225 @@ Proof. intros; apply Z.quot_mul; assumption. Qed.
 Lemma quot_divide : forall a b, b <> 0 -> (b | a) -> a = Z.quot a b * b.
 Proof. intros a b Hb [k ->]. rewrite quot_exact by assumption. reflexivity. Qed.
 
-Lemma gcd_quot_gcd : forall a b g, g = Z.gcd a b -> g <> 0 -> Z.gcd (Z.quot a g) (Z.quot b g) = 1.
+(* the decomposition every gcd-based branch starts from *)
+Lemma gcd_decomp : forall a b, Z.gcd a b <> 0 ->
+  let g := Z.gcd a b in
+  a = Z.quot a g * g /\ b = Z.quot b g * g /\ Z.gcd (Z.quot a g) (Z.quot b g) = 1 /\ 0 < g.
 Proof.
-  intros a b g -> Hg.
-  destruct (Z.gcd_divide_l a b) as [ka Ha]. destruct (Z.gcd_divide_r a b) as [kb Hb].
-  set (g := Z.gcd a b) in *.
-  assert (Hq1 : Z.quot a g = a / g).
-  { rewrite Ha at 1. rewrite quot_exact by assumption. rewrite Ha at 1. rewrite Z.div_mul by assumption. reflexivity. }
-  assert (Hq2 : Z.quot b g = b / g).
-  { rewrite Hb at 1. rewrite quot_exact by assumption. rewrite Hb at 1. rewrite Z.div_mul by assumption. reflexivity. }
-  rewrite Hq1, Hq2. apply Z.gcd_div_gcd; [assumption | reflexivity].
+  intros a b Hg g. fold g in Hg.
+  assert (Ha := quot_divide a g Hg (Z.gcd_divide_l a b)).
+  assert (Hb := quot_divide b g Hg (Z.gcd_divide_r a b)).
+  assert (H0 : 0 <= g) by apply Z.gcd_nonneg.
+  repeat split; try assumption; try lia.
+  rewrite (Z.quot_div_exact a g Hg (Z.gcd_divide_l a b)), (Z.quot_div_exact b g Hg (Z.gcd_divide_r a b)).
+  apply Z.gcd_div_gcd; [assumption | reflexivity].
 Qed.
 
+Lemma gcd_pos_r : forall a b, 0 < b -> Z.gcd a b <> 0.
+Proof. intros a b Hb H. apply Z.gcd_eq_0_r in H. lia. Qed.
+Lemma gcd_pos_l : forall a b, a <> 0 -> Z.gcd a b <> 0.
+Proof. intros a b Hb H. apply Z.gcd_eq_0_l in H. lia. Qed.
+
+Lemma quot_pos_of_mul : forall a g, 0 < g -> 0 < a -> a = Z.quot a g * g -> 0 < Z.quot a g.
+Proof. intros; nia. Qed.
+
+(* ------------------------------------------------------------------ canonical pairs are unique *)
+Lemma canon_unique : forall a b, canon a -> canon b -> same a b -> a = b.
+Proof.
+  intros [n1 d1] [n2 d2] [H1 G1] [H2 G2]; unfold same; cbn [num den fst snd] in *; intros E.
+  assert (D12 : (d1 | d2)).
+  { apply Z.gauss with n1; [exists n2; lia | apply cop_sym; exact G1]. }
+  assert (D21 : (d2 | d1)).
+  { apply Z.gauss with n2; [exists n1; lia | apply cop_sym; exact G2]. }
+  assert (Ed : d1 = d2) by (apply Z.divide_antisym_nonneg; lia || assumption).
+  subst d2. f_equal. nia.
+Qed.
+
+(* ------------------------------------------------------------------ reduce() *)
 Lemma reduce_spec : forall s, 0 < den s -> canon (reduce s) /\ same (reduce s) s.
 Proof.
   intros [n d]; unfold reduce, canon, same, gcdI, divI, isOneI, num, den; cbn [fst snd]; intros Hd.
   destruct (Z.eqb_spec (Z.gcd n d) 1) as [E | E]; cbn [negb fst snd].
   - split; [split; [assumption | exact E] | reflexivity].
-  - set (g := Z.gcd n d) in *.
-    assert (Hg0 : 0 <= g) by apply Z.gcd_nonneg.
-    assert (Hg : g <> 0). { intro H0. apply Z.gcd_eq_0_r in H0. lia. }
-    destruct (Z.gcd_divide_l n d) as [kn Hn]. destruct (Z.gcd_divide_r n d) as [kd Hk]. fold g in Hn, Hk.
-    assert (Qn : Z.quot n g = kn) by (rewrite Hn at 1; apply quot_exact; assumption).
-    assert (Qd : Z.quot d g = kd) by (rewrite Hk at 1; apply quot_exact; assumption).
-    split; [split|].
-    + rewrite Qd. nia.
-    + apply gcd_quot_gcd; [reflexivity | assumption].
-    + rewrite Qn, Qd. clear Qn Qd. nia.
+  - destruct (gcd_decomp n d (gcd_pos_r n d Hd)) as (Hn & Hk & Hc & Hg).
+    set (g := Z.gcd n d) in *. set (kn := Z.quot n g) in *. set (kd := Z.quot d g) in *.
+    split; [split|]; [nia | exact Hc | nia].
 Qed.
+
+Lemma reduce_canon_id : forall s, canon s -> reduce s = s.
+Proof.
+  intros [n d] [Hd Hg]; unfold reduce, gcdI, isOneI, num, den in *; cbn [fst snd] in *.
+  rewrite Hg. reflexivity.
+Qed.
+
+(* ------------------------------------------------------------------ Rational(n, d, red) *)
+Lemma mk_nd_none : forall n r, mk_nd n 0 r = None.
+Proof. reflexivity. Qed.
+
+Lemma nd0_canon : forall n d, canon (n, d) -> nd0 n d = (n, d).
+Proof.
+  intros n d [Hd Hg]; cbn [num den fst snd] in *. unfold nd0, mk_nd, isZeroI, signI.
+  destruct (Z.eqb_spec d 0); [lia|].
+  destruct (Z.eqb_spec n 0) as [-> | Hn]; cbn [get_nd Z.eqb].
+  - rewrite Z.gcd_0_l in Hg. f_equal. lia.
+  - destruct (Z.gtb_spec (Z.sgn d) 0); [reflexivity | lia].
+Qed.
+
+(* without reduction: positive denominator, same value, zero stored as 0/1 *)
+Lemma nd0_spec : forall n d, d <> 0 ->
+  0 < den (nd0 n d) /\ same (nd0 n d) (n, d) /\ (n = 0 -> nd0 n d = (0, 1)).
+Proof.
+  intros n d Hd. unfold nd0, mk_nd, isZeroI, signI, same.
+  destruct (Z.eqb_spec d 0); [lia|].
+  destruct (Z.eqb_spec n 0) as [-> | Hn]; cbn [get_nd Z.eqb num den fst snd].
+  - repeat split; lia.
+  - destruct (Z.gtb_spec (Z.sgn d) 0); cbn [num den fst snd]; repeat split; lia.
+Qed.
+
+Lemma mk_nd_red_spec : forall n d, d <> 0 ->
+  exists r, mk_nd n d 1 = Some r /\ canon r /\ same r (n, d).
+Proof.
+  intros n d Hd. unfold mk_nd, isZeroI, signI.
+  destruct (Z.eqb_spec d 0); [lia|]. change (1 =? 1) with true. cbv iota.
+  eexists; split; [reflexivity|].
+  destruct (Z.eqb_spec n 0) as [-> | Hn].
+  - destruct (reduce_spec (0, 1)) as [Hc Hs]; [cbn; lia|]. split; [exact Hc|].
+    unfold same in *; cbn [num den fst snd] in *. lia.
+  - destruct (Z.gtb_spec (Z.sgn d) 0).
+    + apply reduce_spec; cbn; lia.
+    + destruct (reduce_spec (- n, - d)) as [Hc Hs]; [cbn; lia|]. split; [exact Hc|].
+      unfold same in *; cbn [num den fst snd] in *. lia.
+Qed.
+
+(* ------------------------------------------------------------------ toQ bridges: integer identities -> Q *)
+Lemma toQ_plus : forall r t u, 0 < den r -> 0 < den t -> 0 < den u ->
+  num r * (den t * den u) = (num t * den u + num u * den t) * den r -> (toQ r == toQ t + toQ u)%Q.
+Proof.
+  intros [n d] [n1 d1] [n2 d2]; unfold toQ, Qeq, Qplus; cbn [num den fst snd Qnum Qden]; intros.
+  rewrite Pos2Z.inj_mul, !Z2Pos.id by assumption. lia.
+Qed.
+
+Lemma toQ_minus : forall r t u, 0 < den r -> 0 < den t -> 0 < den u ->
+  num r * (den t * den u) = (num t * den u - num u * den t) * den r -> (toQ r == toQ t - toQ u)%Q.
+Proof.
+  intros [n d] [n1 d1] [n2 d2]; unfold toQ, Qeq, Qminus, Qplus, Qopp; cbn [num den fst snd Qnum Qden]; intros.
+  rewrite Pos2Z.inj_mul, !Z2Pos.id by assumption. lia.
+Qed.
+
+Lemma toQ_mult : forall r t u, 0 < den r -> 0 < den t -> 0 < den u ->
+  num r * (den t * den u) = (num t * num u) * den r -> (toQ r == toQ t * toQ u)%Q.
+Proof.
+  intros [n d] [n1 d1] [n2 d2]; unfold toQ, Qeq, Qmult; cbn [num den fst snd Qnum Qden]; intros.
+  rewrite Pos2Z.inj_mul, !Z2Pos.id by assumption. lia.
+Qed.
+
+Lemma toQ_opp : forall r t, 0 < den r -> 0 < den t ->
+  num r * den t = - num t * den r -> (toQ r == - toQ t)%Q.
+Proof.
+  intros [n d] [n1 d1]; unfold toQ, Qeq, Qopp; cbn [num den fst snd Qnum Qden]; intros.
+  rewrite !Z2Pos.id by assumption. lia.
+Qed.
+
+Lemma toQ_inv : forall r t, 0 < den r -> 0 < den t -> num t <> 0 ->
+  num r * num t = den t * den r -> (toQ r == / toQ t)%Q.
+Proof.
+  intros [n d] [n1 d1]; unfold toQ, Qeq, Qinv; cbn [num den fst snd Qnum Qden]; intros Hd Hd1 Hn E.
+  destruct n1 as [|p|p]; [lia| |]; cbn [Qnum Qden]; rewrite ?Z2Pos.id by assumption.
+  - lia.
+  - change (Z.neg (Z.to_pos d1)) with (- Z.pos (Z.to_pos d1)).
+    rewrite Z2Pos.id by assumption. change (Z.neg p) with (- Z.pos p) in *. lia.
+Qed.
+
+Lemma toQ_div : forall r t u, 0 < den r -> 0 < den t -> 0 < den u -> num u <> 0 ->
+  num r * (den t * num u) = (num t * den u) * den r -> (toQ r == toQ t / toQ u)%Q.
+Proof.
+  intros r t u Hr Ht Hu Hn E. unfold Qdiv.
+  set (iu := (if 0 <? num u then (den u, num u) else (- den u, - num u)) : rat).
+  assert (Hi : 0 < den iu) by (unfold iu; destruct (Z.ltb_spec 0 (num u)); cbn [den snd]; lia).
+  assert (Ei : (toQ iu == / toQ u)%Q).
+  { apply toQ_inv; try assumption. unfold iu; destruct (Z.ltb_spec 0 (num u)); cbn [num den fst snd]; lia. }
+  rewrite <- Ei. apply toQ_mult; try assumption.
+  unfold iu; destruct (Z.ltb_spec 0 (num u)); cbn [num den fst snd]; nia.
+Qed.
+
+Lemma toQ_same : forall r t, 0 < den r -> 0 < den t -> same r t -> (toQ r == toQ t)%Q.
+Proof. intros r t H1 H2 H. apply toQ_eq; assumption. Qed.
+
+(* ------------------------------------------------------------------ the GMP comparison primitives *)
+Lemma cmp3_spec : forall a b, (cmp3 a b < 0 <-> a < b) /\ (cmp3 a b = 0 <-> a = b) /\ (0 < cmp3 a b <-> b < a).
+Proof. intros a b. unfold cmp3. destruct (Z.compare_spec a b); lia. Qed.
+
+Lemma limbs_nonneg : forall x, 0 <= limbs x.
+Proof.
+  intros x. unfold limbs. destruct (Z.eqb_spec x 0); [lia|].
+  assert (0 <= Z.log2 (Z.abs x)) by apply Z.log2_nonneg.
+  assert (0 <= Z.log2 (Z.abs x) / 64) by (apply Z.div_pos; lia). lia.
+Qed.
+
+Lemma limbs_abs_eq : forall a b, Z.abs a = Z.abs b -> limbs a = limbs b.
+Proof.
+  intros a b E. unfold limbs. rewrite E.
+  destruct (Z.eqb_spec a 0), (Z.eqb_spec b 0); try reflexivity; lia.
+Qed.
+
+Lemma limbs_mono : forall a b, Z.abs a <= Z.abs b -> limbs a <= limbs b.
+Proof.
+  intros a b H. unfold limbs. destruct (Z.eqb_spec a 0) as [-> | Ha].
+  - fold (limbs b). apply limbs_nonneg.
+  - destruct (Z.eqb_spec b 0) as [-> | Hb]; [lia|].
+    assert (L := Z.log2_le_mono _ _ H).
+    assert (D := Z.div_le_mono _ _ 64 ltac:(lia) L). lia.
+Qed.
+
+(* mpz_cmpabs returns a limb-count difference when the sizes differ: only its sign is meaningful *)
+Lemma cmpabsI_spec : forall a b,
+  (cmpabsI a b < 0 <-> Z.abs a < Z.abs b) /\ (cmpabsI a b = 0 <-> Z.abs a = Z.abs b) /\
+  (0 < cmpabsI a b <-> Z.abs b < Z.abs a).
+Proof.
+  intros a b. unfold cmpabsI. cbv zeta.
+  destruct (Z.eqb_spec (limbs a - limbs b) 0) as [E | E].
+  - apply cmp3_spec.
+  - assert (Hab := limbs_mono a b). assert (Hba := limbs_mono b a).
+    assert (Heq := limbs_abs_eq a b). lia.
+Qed.
+
+Lemma cmpabsI_eqb : forall a b, 0 < a -> 0 < b -> (cmpabsI a b =? 0) = (a =? b).
+Proof.
+  intros a b Ha Hb. destruct (cmpabsI_spec a b) as (_ & H & _).
+  destruct (Z.eqb_spec (cmpabsI a b) 0), (Z.eqb_spec a b); try reflexivity; lia.
+Qed.
+
+Lemma cmpabsI_refl : forall a, cmpabsI a a = 0.
+Proof. intros a. apply (cmpabsI_spec a a). reflexivity. Qed.
+
+Lemma cmpI_eqb : forall a b, (cmpI a b =? 0) = (a =? b).
+Proof.
+  intros a b. unfold cmpI. cbv zeta.
+  destruct (Z.eqb_spec (Z.sgn a * limbs a - Z.sgn b * limbs b) 0) as [E | E].
+  - destruct (cmp3_spec a b) as (_ & H & _).
+    destruct (Z.eqb_spec (cmp3 a b) 0), (Z.eqb_spec a b); try reflexivity; lia.
+  - destruct (Z.eqb_spec a b) as [-> | N]; [lia|].
+    destruct (Z.eqb_spec (Z.sgn a * limbs a - Z.sgn b * limbs b) 0); [lia | reflexivity].
+Qed.
+
+Lemma mk_nd0 : forall n d, d <> 0 -> mk_nd n d 0 = Some (nd0 n d).
+Proof.
+  intros n d Hd. unfold nd0, mk_nd, isZeroI. destruct (Z.eqb_spec d 0); [lia | reflexivity].
+Qed.
+
+Lemma canon_01 : canon (0, 1).
+Proof. split; cbn; [lia | reflexivity]. Qed.
+
+Lemma mk_int_canon : forall n, canon (mk_int n) /\ num (mk_int n) = n /\ den (mk_int n) = 1.
+Proof.
+  intros n. unfold mk_int, isZeroI, canon. destruct (Z.eqb_spec n 0) as [-> | H]; cbn [num den fst snd].
+  - repeat split; try lia.
+  - repeat split; try lia. apply Z.gcd_1_r.
+Qed.
+
+
+Lemma absI_abs' : forall n, n < 0 -> absI n = - n.
+Proof. intros n H. unfold absI, signI. destruct (Z.geb_spec (Z.sgn n) 0); lia. Qed.
+
+Lemma absI_abs : forall n, absI n = Z.abs n.
+Proof. intros n. unfold absI, signI. destruct (Z.geb_spec (Z.sgn n) 0); lia. Qed.
